@@ -298,13 +298,96 @@ class ShellRename(Contract):
                  "renames_only_the_two_resolved_paths")]
 
 
-CONTRACTS = [ToSegments, Descendant, ShellPath, ShellRename]
+def _touch(kind, result="bool"):
+    def m(self, *a, **kw):
+        c = ctx()
+        c.ghost["touched"].append((kind, self))
+        if result == "bool":
+            # FilePath.isfile / isdir / exists answer either way and never raise (they catch OSError themselves)
+            return bool(c.decide(core.fresh_bool(c.fresh_name("c54_answer"))))
+        if c.decide(core.fresh_bool(c.fresh_name("c54_oserror"))):
+            raise OSError(2, "model")
+        return None
+    return m
+
+
+for _n, _r in (("makedirs", None), ("createDirectory", None), ("remove", None), ("isfile", "bool"), ("isdir", "bool"),
+               ("exists", "bool")):
+    setattr(GPath, _n, _touch(_n, _r))
+
+
+def _raw_os(kind):
+    def f(I, *a, **kw):
+        c = ctx()
+        c.ghost["raw"].append((kind, a))
+        if c.decide(core.fresh_bool(c.fresh_name("c54_oserror"))):
+            raise OSError(2, "model")
+    return f
+
+
+class _SinglePathOp(Contract):
+    """FTPShell.makeDirectory / removeDirectory / removeFile: the path argument is resolved by exactly one _path call on
+    the very list given, every FilePath operation is made on the object _path returned, and every raw os call gets that
+    object's .path -- nothing else reaches the filesystem."""
+    prop = "C54"
+    module = "twisted.protocols.ftp"
+    differential = False
+    replay_decides = False
+    inputs = dict(a=ValList())
+    summaries = {"FTPAnonymousShell._path": _path_summary}
+    calls = dict({"succeed": _opaque_result("succeed"), "fail": _opaque_result("fail"), "errnoToFailure": _opaque_result("errno")},
+                 **{"posix." + k: _raw_os(k) for k in ("rmdir", "remove", "unlink", "mkdir", "rename", "open", "stat", "lstat")})
+    trusted = ["FTPAnonymousShell._path used through its contract (ShellPath / Descendant above)",
+               "FilePath.makedirs / remove / isfile / isdir act on the FilePath's own path (may raise OSError, answer either way)"]
+
+    def setup(self, i):
+        shell = self.make(ftp.FTPShell, filesystemRoot=GPath(True, 0))
+        return dict(self=shell, args=[i.a], ghost=dict(resolved=[], touched=[], raw=[], a=i.a, children=0, names=[],
+                                                        descendant_calls=[], descendant_results=[]))
+
+    def bounded_inputs(self, tier):
+        return iter(())
+
+    @property
+    def raises(self):
+        from twisted.python import filepath
+        return (filepath.InsecurePath,)
+
+    def _only_the_resolved_path(S):
+        res = S.ghost["resolved"]
+        if len(res) > 1 or (res and res[0][0] is not S.ghost["a"]):
+            return False
+        if not res:
+            return not S.ghost["touched"] and not S.ghost["raw"]
+        tok = res[0][1]
+        return (all(o is tok for _k, o in S.ghost["touched"])
+                and all(len(a) == 1 and a[0] == tok.path for _k, a in S.ghost["raw"]))
+
+    ensures = dict(only_the_resolved_path_is_touched=_only_the_resolved_path)
+
+
+class ShellMakeDirectory(_SinglePathOp):
+    function = "FTPShell.makeDirectory"
+    canaries = [("            p.makedirs()", "            p.parent().makedirs()", "only_the_resolved_path_is_touched")]
+
+
+class ShellRemoveDirectory(_SinglePathOp):
+    function = "FTPShell.removeDirectory"
+    canaries = [("            os.rmdir(p.path)", "            os.rmdir(self.filesystemRoot.path)", "only_the_resolved_path_is_touched")]
+
+
+class ShellRemoveFile(_SinglePathOp):
+    function = "FTPShell.removeFile"
+    canaries = [("            p.remove()", "            p.sibling(path[-1]).remove()", "only_the_resolved_path_is_touched")]
+
+
+CONTRACTS = [ToSegments, Descendant, ShellPath, ShellRename, ShellMakeDirectory, ShellRemoveDirectory, ShellRemoveFile]
 BOUNDED = bounded("C54")
 _SCOPE = ('real FTPShell._path(toSegments(cwd, arg)) for every argument of up to 5 tokens (/ .. . a bob2 NUL backslash *) under 8 working-directory histories, and the real FTP protocol (FTPFactory / Portal / FTPRealm) driven with raw command bytes on a scratch tree with prefix-sharing siblings: 10 verbs x 134 arguments x prefix histories, RNFR x RNTO pairs, stateful prefixes, 1500 random sessions; oracles: an audit hook on every filesystem call, byte-identical outside tree, no outside content or names on the wire')
 NOTES = dict(explanation="toSegments proved to produce only plain names (pieces of arbitrary content, bounded count); the shell and the "
                          "protocol bounded: " + _SCOPE,
              not_covered=["more than three pieces per argument (the loop body is the same for every piece; not proved inductively)",
-                          "FTPShell's operations and the protocol's command handlers: bounded tier only",
+                          "FTPShell.list / stat / access / openForReading / openForWriting and the protocol's command handlers: bounded tier only",
                           "FilePath.child itself: C26 (used here through its contract)"])
 MANIFEST = dict(
     category="proof",
@@ -315,7 +398,8 @@ MANIFEST = dict(
          "what filesystemRoot.descendant returned for the list it was given, and FilePath.descendant is proved, for a list of "
          "any length (inductive invariant), to take exactly one child() step per segment with child() used through its C26 "
          "contract, so the path every shell operation works on is under the root or InsecurePath is raised.  FTPShell.rename is "
-         "proved to call os.rename at most once and only with the two paths _path returned for its two arguments.  The "
+         "proved to call os.rename at most once and only with the two paths _path returned for its two arguments, and "
+         "makeDirectory / removeDirectory / removeFile to touch only the one path _path returned for their argument.  The "
          "shell's operations, the protocol and longer arguments are exercised in the bounded tier only: " + _SCOPE + ".",
     note="Trusted: pyvc, SMT solvers, str.split as the inverse of join, the piece-count bound.  Everything else: bounded, never counted as proved.",
     technique="contract-based deductive verification (symbolic execution with the loop unrolled over a bounded number of arbitrary pieces, SMT strings) + bounded exhaustive sessions on a scratch tree",
